@@ -12,16 +12,19 @@ def _attach(pid, g):
 # FuncsMoveGen (MkSlides, calculateSlides, the `slides` table of init, Position.AllMoves).  Every group file imports the
 # earlier ones, so a property lists all files up to the last one it uses.
 _UPTO_EVAL = ["FuncsTak.lean", "FuncsOver.lean", "FuncsMove.lean", "FuncsSym.lean", "FuncsAI.lean", "FuncsFPA.lean", "FuncsEval.lean"]
+# Third round (work package "gen3"): FuncsApply (Slides.Iterator, Position.analyze, Position.MovePreallocated) is the last
+# generated file and imports all the others.
+_ALL_APPLY = _UPTO_EVAL + ["FuncsPos.lean", "FuncsRoad.lean", "FuncsMoveGen.lean", "FuncsSymMove.lean", "FuncsProve.lean", "FuncsApply.lean"]
 _GEN = {
-    "C01": (_UPTO_EVAL + ["FuncsPos.lean"], ["FNTAK", "FNPOS"]),
+    "C01": (_ALL_APPLY, ["FNTAK", "FNPOS", "FNAPPLY"]),
     "C02": (_UPTO_EVAL + ["FuncsPos.lean", "FuncsRoad.lean"], ["FNTAK", "FNOVER", "FNROAD"]),
-    "C03": (_UPTO_EVAL + ["FuncsPos.lean", "FuncsRoad.lean", "FuncsMoveGen.lean"], ["FNMOVEGEN"]),
+    "C03": (_ALL_APPLY, ["FNMOVEGEN", "FNAPPLY"]),
     "C05": (["FuncsTak.lean", "FuncsMove.lean", "FuncsAI.lean"], ["FNMOVE", "FNAI"]),
     "C14": (_UPTO_EVAL + ["FuncsPos.lean", "FuncsRoad.lean", "FuncsMoveGen.lean", "FuncsSymMove.lean"], ["FNMOVE", "FNSYM", "FNXFORM"]),
     "C06": (_UPTO_EVAL + ["FuncsPos.lean", "FuncsRoad.lean", "FuncsMoveGen.lean", "FuncsSymMove.lean", "FuncsProve.lean"], ["FNPROVE"]),
     "C15": (["FuncsTak.lean", "FuncsMove.lean", "FuncsSym.lean"], ["FNSYM"]),
     "C20": (["FuncsTak.lean", "FuncsMove.lean", "FuncsFPA.lean"], ["FNMOVE", "FNFPA"]),
-    "C08": (_UPTO_EVAL + ["FuncsPos.lean"], ["FNHASH", "FNPOS"]),
+    "C08": (_ALL_APPLY, ["FNHASH", "FNPOS", "FNAPPLY"]),
     "C18": (["FuncsTak.lean", "FuncsOver.lean", "FuncsEval.lean"], ["FNEVAL"]),
 }
 for _pid in list(PROPS):
